@@ -436,8 +436,8 @@ def gen_history(rng):
     return dict(mode="history", calls=calls)
 
 
-WIDE_DTYPES = ["uint16", "int32", "uint32", "int64", "uint64"]      # hold every value the documented code computes
-NARROW_DTYPES = ["int16", "uint8", "int8"]                            # 1 << 15 does not fit: observed, not judged
+WIDE_DTYPES = ["uint16", "int32", "uint32", "int64", "uint64"]
+NARROW_DTYPES = ["int16", "uint8", "int8"]      # 1 << 15 does not fit (defect repaired by /repo 2baef63; judged like the rest)
 
 
 def gen_numpy(rng):
@@ -456,7 +456,7 @@ def gen_numpy(rng):
             if chip not in have:
                 have.add(chip)
                 c["targets"].insert(rng.randint(0, len(c["targets"])), [chip[0], chip[1], sorted(rand_cores(rng, 1, 2))])
-    c["dtype"] = rng.choice(WIDE_DTYPES)
+    c["dtype"] = rng.choice(WIDE_DTYPES + NARROW_DTYPES)
     c["tags"] = sorted(set(c.get("tags", []) + ["numpy"]))
     return c
 
@@ -688,8 +688,8 @@ def run(chk, args):
                 cases.append(gen_case(rng, i, chk.tier))
         for dt in NARROW_DTYPES:
             lim = 128 if dt == "int8" else 256
-            cases.append(dict(mode="compress", container="list", order="sorted", tags=["numpy-narrow"], valid=False,
-                              nomodel=True, probe=dt, dtype=dt,
+            cases.append(dict(mode="compress", container="list", order="sorted", tags=["numpy-narrow"], valid=True,
+                              dtype=dt,
                               targets=[[3, 3, [1, 17]], [100, 7, [2]], [lim - 1, lim - 1, [0]], [15, 15, [5]]]))
         # a whole machine for one core, and the whole machine but one chip for another
         cases.append(expand(dict(mode="compress", rects=[[0, 0, 256, 256, [7]]], container="set", tags=["full256"],
@@ -789,11 +789,6 @@ def run(chk, args):
             chk.note_case([c["targets"], c.get("dtype")], nontrivial=(o[0] == "ok" and len(c["targets"]) >= 2 and (merged or len(o[2]) >= 2)))
             if c.get("dtype"):
                 chk.count("numpy dtype:" + c["dtype"])
-            if c.get("probe"):
-                t_ = {(t[0], t[1]): set(t[2]) for t in c["targets"]}
-                w_ = oracle_compress(t_, o)
-                chk.coverage.setdefault("narrow_numpy_dtypes_observed_not_judged", {})[c["probe"]] = (
-                    "exact" if w_ is None else "%s (%s)" % (w_[1], o[1] if o[0] == "other" else o[0]))
             if c["valid"]:
                 targets = {(t[0], t[1]): set(t[2]) for t in c["targets"]}
                 why = oracle_compress(targets, o)
